@@ -139,6 +139,23 @@ def step (line : String) : String :=
         | none => "shark-exception"
         | some pts => showOutcome f32 (Csv.importClass pts maxB)
     | _, _, _, _ => "bad-op"
+  | ["csv1", ty, comment, maxB, mode, hex] =>
+    if mode == "S" then "safety-only" else
+    match comment.toNat?, maxB.toNat? with
+    | some comment, some maxB =>
+      let bytes := if hex == "-" then [] else unhex hex.toList
+      let g := if ty == "int" then SharkVerif.Peg.valuesInt else if ty == "uint" then SharkVerif.Peg.valuesUInt else SharkVerif.Peg.valuesReal
+      match Csv.readValues g bytes (Char.ofNat comment) with
+      | none => "shark-exception"
+      | some evs =>
+        let vals := evs.filterMap fun e => match e with
+          | .val v => some v
+          | .int i => some (Val.ofInt i)
+          | .mark => none
+        match Csv.importScalars vals maxB with
+        | .ok d => s!"ok batches=[{sepBy "," (d.batches.map toString)}] values=[{sepBy "," (vals.map Val.render)}]"
+        | o => showOutcome false o
+    | _, _ => "bad-op"
   | ["rt", "csv", kind, lp, nout, sep, maxB, dim, seed, n] =>
     match nout.toNat?, sep.toNat?, maxB.toNat?, dim.toNat?, seed.toNat?, n.toNat? with
     | some nout, some sep, some maxB, some dim, some seed, some n =>
